@@ -255,9 +255,11 @@ def run(ctx):
 _TB = [
     "Coq 8.16.1 kernel, vm_compute; Flocq binary64 (+ its 4 standard-library axioms)",
     "hand-written model coq/model/Estimator.v: exact-arithmetic running mean / variance accumulator and diagonal update (theorems), binary64 kernels (evaluated, tied bit-exactly to CpuMath::array_update_variance and array_update_var_inv_std_{draw,draw_grad,grad})",
-    "the faer pipeline of the low-rank estimator (SVD, QR, eigendecompositions) is not modelled: its exactness on Gaussians is audited on the implementation (whitened gradient = -whitened position after warmup), not proved",
+    "hand-written model coq/model/LowRank.v: everything of the low-rank estimator around the decompositions - the `< 3 draws` guard of adapt, the finite gate of LowRankMassMatrix::update and what it installs (set_transform, InnerMatrix::new), the entry-wise maps of rescale_points, the eigenvalue filter - tied bit-exactly to the implementation driven directly with synthetic windows (hook H1e: LowRankMassMatrixStrategy::verif_push / verif_compute_update / verif_rescale_points, harness bin lowrank)",
+    "inputs, not modelled: faer's thin SVD, pivoted QR, self-adjoint eigendecomposition, matrix products and row sums. What they compute is checked against oracles derived from the window alone (sigma and mu of the rescaling, orthonormal eigenvectors, kept eigenvalues outside [1/cutoff, cutoff], the installed spectral factor solves the Riccati equation S (I + G G^T/gamma) S = I + X X^T/gamma of the SPD geometric mean, full-rank Gaussian windows are whitened exactly), and the assumption the theorems leave to them - a window that rescale_points made non-finite is never turned into an accepted update - is checked on every degenerate window",
 ]
 TRUSTED = {"C08": _TB}
-ASSUMPTIONS = {"C08": ["low-rank exactness is audited with eigval_cutoff = 1 and gamma = 1e-10 (with the default cutoff 2 directions with eigenvalue in [1/2, 2] are deliberately left unscaled)",
+ASSUMPTIONS = {"C08": ["faer decompositions fail or return non-finite factors on a non-finite matrix (checked on every degenerate window of the run, not proved)",
+                       "low-rank exactness is audited with eigval_cutoff = 1 and gamma = 1e-10 (with the default cutoff 2 directions with eigenvalue in [1/2, 2] are deliberately left unscaled)",
                        "sqrt is an abstract function with sqrt(x)^2 = x in the exact-arithmetic theorems"]}
-RULE = {"C08": "kernel elements: seeded values dominated by special cases (0, -0, inf, nan, subnormal, 1e+-300, clamp boundaries) and full-range bit patterns; closed loop: Gaussian targets with condition numbers up to 1e6, dimensions 1-8, diagonal and correlated, diag and low-rank adaptation; distinct = (case, element)"}
+RULE = {"C08": "low-rank windows: dimensions 1-8, 0-30 draws, Gaussian (diagonal / correlated, means up to 300 widths away) and degenerate kinds (constant or zero draws in a coordinate, constant / zero gradients, NaN or infinite entries, 1e+-150..1e+-300 magnitudes, under/overflowing variance ratios, identical draws, duplicated coordinates, fewer than 3 draws), gamma in {1e-10,1e-8,1e-5,0.1,1}, cutoff in {1,1.5,2,10} (every window also with cutoff 1), plus direct calls of update with a non-finite entry in each argument; kernel elements: seeded values dominated by special cases (0, -0, inf, nan, subnormal, 1e+-300, clamp boundaries) and full-range bit patterns; closed loop: Gaussian targets with condition numbers up to 1e6, dimensions 1-8, diagonal and correlated, diag and low-rank adaptation; distinct = (case, element)"}
